@@ -218,7 +218,7 @@ PROPS["C17"] = {
     "level": "fault_enumeration",
     "technique": "exhaustive enumeration of (parameter-group layout, request history, restart point, NVM fault positions) on the real 1010h/1011h store/load path with a harness-owned NVM device, against a reference model (RAM image, NVM image, last successfully stored image per group)",
     "text": "9 layouts (1..4 groups, sizes {1,2,5,64}, both reset types, enabled/disabled/autonomous flags, adjacent NVM offsets with guard bytes). Per layout every request history of length 3 (quick) / 4 (thorough) over {'save' and a wrong value to every 1010h sub-index, 'load' and a wrong value to every 1011h sub-index, an application change of each group, NMT reset node / communication}, every restart point (discard node and RAM, keep NVM, initialise again) and every position k at which the k-th NVM driver call is short by one byte or returns 0 (one fault; thorough additionally two faults on histories of length 3); plus a sweep of 41 wrong signature values per object and sub-index and the first initialisation on an erased device. After every request the SDO verdict, the complete 512-byte NVM image, the RAM image, the COParaDefault calls and - after restarts and resets - the reloaded groups are compared with the reference; a short write must never be confirmed, a short read must leave a node error.",
-    "note": "sub-index 1 means 'all groups' (placeholder CO_PARA) when there are >= 2 groups, as the repository's own unit test builds it; a request addressing a disabled group may be confirmed or aborted; the content of a group whose own driver call was short is adopted from the implementation; NMT reset node reloads the node groups AND the communication groups (co_nmt.h: "reset application (and communication)"; CiA 301 passes from reset application through reset communication; C20 equates it with a fresh start, which loads every group); on NMT reset communication the node groups may be reloaded or left alone",
+    "note": "sub-index 1 means 'all groups' (placeholder CO_PARA) when there are >= 2 groups, as the repository's own unit test builds it; a request addressing a disabled group may be confirmed or aborted; the content of a group whose own driver call was short is adopted from the implementation; NMT reset node reloads the node groups AND the communication groups (co_nmt.h: 'reset application (and communication)'; CiA 301 passes from reset application through reset communication; C20 equates it with a fresh start, which loads every group); on NMT reset communication the node groups may be reloaded or left alone",
     "rule": "a case is a tuple (layout, request history, restart point, fault positions and kinds) executed from a restored snapshot; non-trivial = at least one NVM driver call or SDO answer happened; distinct = distinct hashes of verdicts, driver-call log and final images",
     "jobs": {
         "quick":    [J("c17", c) for c in range(9)],
